@@ -67,10 +67,19 @@ class Lock:
         self.f.close()
 
 
+def _big_stack():
+    # extracted code recurses along lists: give the OCaml drivers (and their children) an unlimited stack
+    import resource
+    try:
+        resource.setrlimit(resource.RLIMIT_STACK, (resource.RLIM_INFINITY, resource.RLIM_INFINITY))
+    except (ValueError, OSError):
+        pass
+
+
 def run(cmd, timeout=600, cwd=None, env=None, inp=None):
     try:
         r = subprocess.run(cmd, cwd=cwd, env=env or ENV, input=inp, capture_output=True,
-                           timeout=timeout, text=isinstance(inp, str) or inp is None)
+                           timeout=timeout, text=isinstance(inp, str) or inp is None, preexec_fn=_big_stack)
         return r.returncode, r.stdout, r.stderr
     except subprocess.TimeoutExpired as e:
         out = e.stdout or ""
@@ -260,6 +269,23 @@ def build_harness(timeout=900):
             shutil.copy(lock_src, os.path.join(hd, "Cargo.lock"))
             rc, out, err = run(["cargo", "build", "--offline", "--bins"], cwd=hd, timeout=timeout)
         return rc == 0, (out + err)[-4000:]
+
+
+def build_ocaml(timeout=900):
+    """Re-extract and rebuild the OCaml drivers when a model or a driver source is newer than the binaries."""
+    with Lock("ocaml"):
+        bins = [os.path.join(ROOT, "ocaml", "bin", b) for b in ("sppure", "spsim")]
+        srcs = coq_sources() + [os.path.join(ROOT, "ocaml", "src", f) for f in os.listdir(os.path.join(ROOT, "ocaml", "src"))]
+        srcs.append(os.path.join(ROOT, "ocaml", "build.sh"))
+        if all(os.path.exists(b) for b in bins):
+            newest = max(os.path.getmtime(x) for x in srcs)
+            if min(os.path.getmtime(b) for b in bins) >= newest:
+                return True, ""
+        ok, log = coq_make([])   # the extraction needs every model compiled
+        if not ok:
+            return False, log[-3000:]
+        rc, out, err = run(["sh", os.path.join(ROOT, "ocaml", "build.sh")], timeout=timeout)
+        return rc == 0, (out + err)[-3000:]
 
 
 # ------------------------------------------------------------------ known findings
